@@ -511,7 +511,7 @@ for _e, _n, _u in ((0, 8, 11), (1, 10, 13)):
     O(id='SEQUENCE_decode_oer.e%d' % _e, props=['C04', 'C14', 'C03'], kind='bounded', tier='experimental' if _e else 'quick', entry='h_SEQUENCE_decode_oer', functions=['SEQUENCE_decode_oer', 'SEQUENCE_free', 'asn_bit_data_new_contiguous', 'asn_get_few_bits', 'oer_open_type_get', 'oer_open_type_skip', 'oer_fetch_length'],
       defines=['VF_EXT=%d' % _e, 'VF_N=%d' % _n], unwind=_u, cbmc=['--unwindset', 'asn_get_few_bits:3,memcpy.0:18', '--malloc-may-fail', '--malloc-fail-null', '--memory-leak-check'],
       bound=_bd + ' in an exact-size heap buffer; every allocation may fail', min_props=80, timeout=1500, mem_gb=30, **SQO)
-    O(id='SEQUENCE_decode_oer.chunk2.e%d' % _e, props=['C05'], kind='bounded', tier='experimental', entry='h_SEQUENCE_decode_oer_chunked', functions=['SEQUENCE_decode_oer', 'asn_get_few_bits', 'asn_get_undo', 'oer_open_type_get', 'oer_open_type_skip'],
+    O(id='SEQUENCE_decode_oer.chunk2.e%d' % _e, props=['C05'], kind='bounded', tier='experimental' if _e else 'quick', entry='h_SEQUENCE_decode_oer_chunked', functions=['SEQUENCE_decode_oer', 'asn_get_few_bits', 'asn_get_undo', 'oer_open_type_get', 'oer_open_type_skip'],
       defines=['VF_EXT=%d' % _e, 'VF_N=%d' % _n], unwind=_u, cbmc=['--unwindset', 'asn_get_few_bits:3,memcpy.0:18', '--no-malloc-may-fail'],
       bound=_bd + '; every split point k (two chunks)', min_props=80, timeout=1500, mem_gb=30, **SQO)
 
@@ -640,11 +640,11 @@ STB = dict(harness='harness/h_set_ber.c', units=[SK + 'constr_SET.c', SK + 'ber_
            link=[SK + 'ber_decoder.c', SK + 'ber_tlv_tag.c', SK + 'ber_tlv_length.c'], stubs=['stubs/bsearch.c'],
            fp_restrict=[(r'ber_decoder\)$', ['sv_ber']), (r'free_struct\)$', ['sv_free']), (r'compar$', ['_t2e_cmp'])], trusted=[STUBT, 'stubs/bsearch.c'])
 _ub = 'bsearch.0:10,ber_fetch_tag.0:11,ber_fetch_length.0:11,h_SET_decode_ber.0:11,h_SET_decode_ber.1:11,h_SET_decode_ber_chunked.0:11,h_SET_decode_ber_chunked.1:11'
-O(id='SET_decode_ber.b8', props=['C04', 'C14'], kind='bounded', tier='experimental', entry='h_SET_decode_ber',
+O(id='SET_decode_ber.b8', props=['C04', 'C14'], kind='bounded', entry='h_SET_decode_ber',
   functions=['SET_decode_ber', 'ber_check_tags', 'ber_fetch_tag', 'ber_fetch_length', '_t2e_cmp', '_SET_is_populated', 'SET_free'],
   defines=['VF_N=8'], unwind=6, cbmc=['--unwindset', _ub, '--malloc-may-fail', '--malloc-fail-null', '--memory-leak-check'],
   bound='SET { a [0], b [1] OPTIONAL, c [2] } of stub members; every input of at most 8 octets in an exact-size heap buffer; every allocation may fail', min_props=80, timeout=1800, **STB)
-O(id='SET_decode_ber.chunk2', props=['C05', 'C03'], kind='bounded', tier='experimental', entry='h_SET_decode_ber_chunked',
+O(id='SET_decode_ber.chunk2', props=['C05', 'C03'], kind='bounded', entry='h_SET_decode_ber_chunked',
   functions=['SET_decode_ber', 'ber_check_tags', 'ber_fetch_tag', 'ber_fetch_length', '_t2e_cmp', '_SET_is_populated'],
   defines=['VF_N=8'], unwind=6, cbmc=['--unwindset', _ub, '--no-malloc-may-fail'],
   bound='as SET_decode_ber.b8; every split point k (two chunks); C03: the components in every order', min_props=80, timeout=1800, **STB)
